@@ -420,6 +420,7 @@ GRID_THETAS = {
 }
 GRID_PTS = [(0.2, 0.7), (0.5, 0.5), (0.9, 0.15), (0.03, 0.4), (0.6, 0.97), (0.99, 0.99), (0.01, 0.01), (0.99, 0.01),
             (1e-4, 1e-4), (1 - 1e-4, 1 - 1e-4), (1e-9, 0.5), (0.5, 1e-9)]
+CONF_PTS = [(0.2, 0.7), (0.5, 0.5), (0.9, 0.15), (0.03, 0.4), (0.6, 0.97), (0.95, 0.95), (0.99, 0.99), (0.01, 0.01), (0.99, 0.01)]
 EXTREME_ROWS = [(1e-4, 1e-4), (1e-9, 0.5), (0.5, 1e-9), (1 - 1e-9, 0.5), (1e-12, 1e-12), (1 - 1e-4, 1 - 1e-4)]
 
 
@@ -670,6 +671,24 @@ def drive(pid, tier, seed, obs, methods, outside, fams=None):
         else:
             ck.ob(nm, r['status'], r['secs'], queries=len(r['tried']))
             ck.inconcl(f"{nm}: solver said {r['status']} ({r.get('error') or r['tried']}) and no replay reproduces")
+    # concrete conformance grid: the same clauses evaluated on the real float64 code (this is where
+    # cancellation / rounding defects, which the real-arithmetic proof cannot see, surface)
+    nconf = 0
+    for fam in fams:
+        for th in GRID_THETAS[fam]:
+            for (u_, v_) in CONF_PTS:
+                for nm_ in obs:
+                    if nm_ in ('gen strictly decreasing', 'theta ordering') or (nm_.startswith('h(0,v)') and not fam.startswith('frank')):
+                        continue
+                    nconf += 1
+                    try:
+                        b_, d_ = concrete_violates(fam, nm_, th, u_, v_)
+                    except Exception as e:
+                        b_, d_ = True, f'raises {type(e).__name__}: {e}'
+                    if b_:
+                        ck.violation(f'{fam}:{nm_}:float64', f'{nm_} fails for {fam} in float64 at theta={th} u={u_} v={v_}: {d_}',
+                                     {'fam': fam, 'name': nm_, 'theta': th, 'u': u_, 'v': v_, 'detail': str(d_)})
+    ck.traces_validated += nconf
     # boundary values and row independence
     rows = pool_map(run_rows, [(f, methods, tier) for f in fams])
     for rr in rows:
